@@ -206,7 +206,18 @@ pub fn lexicon_menu() -> Vec<(&'static str, Vec<Row>)> {
             "a+ab",
             vec![row("a", 1, 2, 40, "a-word"), row("ab", 2, 1, 70, "ab-word")],
         ),
+        // "a" in the system lexicon, "b" and "bc" only in a user lexicon (see `user_rows_for`)
+        ("a+user-b", vec![row("a", 1, 2, 40, "a-word")]),
     ]
+}
+
+/// User lexicon that goes with a lexicon menu entry.
+pub fn user_rows_for(name: &str) -> Option<Vec<Row>> {
+    if name == "a+user-b" {
+        Some(vec![row("b", 2, 1, 45, "user-b"), row("bc", 1, 1, 60, "user-bc"), row(" ", 1, 2, 30, "user-space")])
+    } else {
+        None
+    }
 }
 
 /// U-unk: unknown-word universe (C01, C03, C10 safety).
@@ -234,7 +245,7 @@ pub fn u_unk(tier: Tier) -> Vec<Universe> {
                                     ranges: ranges.clone(),
                                     unk: unk_rows(mult, None),
                                     sys: lex.clone(),
-                                    user: None,
+                                    user: user_rows_for(xname),
                                     nr: 3,
                                     nl: 3,
                                     conn,
@@ -299,7 +310,7 @@ pub fn u_nul(_tier: Tier) -> Vec<Universe> {
                     ranges: ranges.clone(),
                     unk: unk_rows(1, None),
                     sys: lex.clone(),
-                    user: None,
+                    user: user_rows_for(xname),
                     nr: 3,
                     nl: 3,
                     conn: matrix_pattern(3, 3, 1),
@@ -347,7 +358,7 @@ pub fn u_k1(_tier: Tier) -> Vec<Universe> {
                     ranges: ranges.clone(),
                     unk: unk_rows(1, Some(missing)),
                     sys: lex.clone(),
-                    user: None,
+                    user: user_rows_for(xname),
                     nr: 3,
                     nl: 3,
                     conn: matrix_pattern(3, 3, 1),
